@@ -138,7 +138,7 @@ CLAIMED = {
               "nodes, interior points of every tabulated line, the saturated line, saturation pressures and with Evaluation "
               "arguments; TLC validates every event (Trace_PvtMonitor)."),
         design_ref="DESIGN.md section 5, C14",
-        note=("Trusted: TLC; the event scaling in the harness; UnitSystem for table values.  Extrapolation beyond the tables, PVCDO and "
+        note=("Trusted: TLC; the event scaling in the harness; UnitSystem for table values.  Extrapolation beyond the tables and "
               "the thermal / brine / CO2 variants are not checked (the CO2 / H2 tables are absent from this source snapshot; "
               "harness/co2stub.hpp only satisfies the linker)."),
         technique="TLC-generated table shapes + TLC trace validation (monitor) of every evaluation of the real PVT classes",
